@@ -32,8 +32,11 @@ def resave_oracle(b):
     logging.disable(logging.CRITICAL)
     from psd_tools.psd import PSD
 
+    from psd_tools.psd import descriptor as _D_
+
     signal.signal(signal.SIGALRM, _alarm)
     signal.alarm(40)
+    short_before = {k for k in _D_._TERMS if len(k) != 4}
     try:
         try:
             d = PSD.read(io.BytesIO(b))
@@ -43,6 +46,9 @@ def resave_oracle(b):
             return ("rejected", type(e).__name__)
         try:
             gb = guard_bits_o(d)
+            # twin of ResavePayload.dguard: a key the input ended inside - a short key added to the (global) term set, or an empty key
+            if {k for k in _D_._TERMS if len(k) != 4} - short_before or _has_empty_key(d):
+                gb |= 64
         except Exception:
             gb = -1
         try:
@@ -75,6 +81,30 @@ def resave_oracle(b):
         return ("accepted-ok", str(len(s1)))
     finally:
         signal.alarm(0)
+        # the term set is a process-wide global of the library: forget the short terms this input added, so that one damaged
+        # input does not change how the following ones are written
+        _D_._TERMS.difference_update({k for k in _D_._TERMS if len(k) != 4} - short_before)
+
+
+def _has_empty_key(d):
+    """an empty descriptor key / class id / enum anywhere in the structure"""
+    import attr
+
+    from psd_tools.psd import descriptor as D
+    from psd_tools.psd.base import BaseElement
+
+    for x in BaseElement._traverse(d, lambda e: type(e).__module__ == D.__name__):
+        if attr.has(type(x)):
+            for f in attr.fields(type(x)):
+                if f.name in ("classID", "typeID", "enum", "keyID") and getattr(x, f.name) == b"":
+                    return True
+        if isinstance(x, dict) or hasattr(x, "keys"):
+            try:
+                if any(k == b"" for k in x.keys()):
+                    return True
+            except Exception:
+                pass
+    return False
 
 
 def struct_diffs(a, b, path="psd", out=None, limit=12):
@@ -359,8 +389,10 @@ LI = "psd.layer_and_mask_information.layer_info."
 _D = {
     1: lambda p, a, b: p in (LI + "layer_records", LI + "channel_image_data") and a.endswith("(len=0)") and b == "None",
     2: lambda p, a, b: p == "psd.layer_and_mask_information.tagged_blocks" and a == "None" and b == "TaggedBlocks(len=0)",
+    # a descriptor key / enum / class id that changed its length (the short key read at the end of the input comes back 4 bytes long)
+    64: lambda p, a, b: "].data" in p and a.startswith("bytes(len=") and b.startswith("bytes(len=") and a != b,
 }
-_FID = {1: "F-C02-1", 2: "F-C02-2", 16: "F-C02-5"}      # F-C02-3 / F-C02-4 (f3a2729) and F-C02-6 (de58475) are fixed: they suppress nothing
+_FID = {1: "F-C02-1", 2: "F-C02-2", 16: "F-C02-5", 64: "F-C02-7"}      # F-C02-3 / F-C02-4 (f3a2729) and F-C02-6 (de58475) are fixed: they suppress nothing
 
 
 def explain(kind, obs):
@@ -439,6 +471,9 @@ def coq_witnesses():
     w["wa1"] = doc([lsct_(3), lsct_(3), b"", lsct_(1), lsct_(2)])
     w["wa2"] = doc([b"", lsct_(1)])
     w["wa3"] = doc([lsct_(3), b""])
+    w7 = bytes([0, 0, 0, 16, 0, 0, 0, 0, 0, 0, 0, 0, 110, 117, 108, 108, 0, 0, 0, 1, 0, 0, 0, 0, 79, 114, 110, 116, 101, 110, 117, 109,
+                0, 0, 0, 0, 79, 114, 110, 116, 0, 0, 0, 0, 72])
+    w["w7"] = w7          # Properties/C02.v w7: the DescriptorBlock payload alone
     w["w_ovf"] = _HDR[:5] + b"\x02" + _HDR[6:] + _I(0) + _I(0) + struct.pack(">Q", 10) + b"\xff" * 8 + b"\0\0" + b"\0\0"
     w["ex_file"] = _HDR + _I(0) + _I(len(res)) + res + _I(len(lami)) + lami + b"\0\1" + bytes([5, 5])
     return w
@@ -449,6 +484,17 @@ W5 = coq_witnesses()["w5"]
 W6 = coq_witnesses()["w6"]
 
 
+def _w7_file():
+    """a layer record whose 'SoCo' block holds the payload w7 of Properties/C02.v (a descriptor ending inside its last key)"""
+    blk = b"8BIMSoCo" + _I(45) + coq_witnesses()["w7"]
+    body = struct.pack(">h", 1) + _rec([], _I(0) + _I(0) + _I(0) + blk)
+    body += b"\0" * (-len(body) % 4)
+    return _HDR + _I(0) + _I(0) + _I(4 + len(body) + 4) + _I(len(body)) + body + _I(0) + b"\0\0" + b"\0" * 20
+
+
+W7 = _w7_file()
+
+
 def _still(b, kind):
     st, _ = resave_oracle(b)
     return st == kind
@@ -457,6 +503,7 @@ def _still(b, kind):
 core.KNOWN_WITNESS["F-C02-1"] = lambda: _still(W1, "resaved-not-equal")
 core.KNOWN_WITNESS["F-C02-2"] = lambda: _still(W2, "resaved-not-equal")
 core.KNOWN_WITNESS["F-C02-5"] = lambda: _still(W5, "resaved-unreadable")
+core.KNOWN_WITNESS["F-C02-7"] = lambda: _still(W7, "resaved-not-equal")
 
 
 def _work(item):
@@ -520,7 +567,7 @@ def rich_seeds(ck):
     soco = D.DescriptorBlock(items=[
         (b"Clr ", D.Descriptor(items=[(b"Rd  ", D.Double(255.0)), (b"Grn ", D.Double(0.5))], classID=b"RGBC")),
         (b"Nm  ", D.String("ab")), (b"Cnt ", D.Integer(3)), (b"Lst ", D.List([D.Integer(1), D.Bool(True)])),
-        (b"Ornt", D.Enumerated(b"Ornt", b"Hrzn")), (b"Opct", D.UnitFloat(50.0, Unit.Percent))], classID=b"null").tobytes()
+        (b"Opct", D.UnitFloat(50.0, Unit.Percent)), (b"Ornt", D.Enumerated(b"Ornt", b"Hrzn"))], classID=b"null").tobytes()
     vma = lambda d: P.VirtualMemoryArray(1, 8, [0, 0, 2, 2], 8, Compression.RAW, d)
     patt = P.Patterns([P.Pattern(1, ColorMode.RGB, [2, 2], "pat", "id-1", None,
                                  P.VirtualMemoryArrayList(3, [0, 0, 2, 2], [vma(b"\1\2\3\4"), vma(b"\5\6\7\x08"), vma(b"\x09\x0a\x0b\x0c")]))]).tobytes()
@@ -597,7 +644,7 @@ def tiny_seeds(ck):
     versions with unknown tagged-block keys / resource ids, masks, blending ranges, global layer mask info"""
     from . import format_common as F
 
-    out = [("tiny:" + k, b) for k, b in sorted(coq_witnesses().items())]
+    out = [("tiny:" + k, b) for k, b in sorted(coq_witnesses().items()) if k != "w7"] + [("tiny:w7file", W7)]
     want = 16 if ck.tier == "thorough" else 6
     tries = 0
     while len(out) < want + 6 and tries < 4000:
